@@ -11,7 +11,7 @@ ASSUMPTIONS = c11.ASSUMPTIONS + ['when the Close frame\'s own sendall is made to
                                  'the event loop thread processes scripted server frames (Close, Ping) and timer ticks; protocol-error closes (1002) are single-threaded and belong to C04/C08']
 
 LEANCHECK_MODULES = ['Lomond.Model.Threads', 'Lomond.Model.ThreadsN', 'Lomond.Proofs.Threads', 'Lomond.Proofs.ThreadsC', 'Lomond.Proofs.ThreadsP',
-                     'Lomond.Proofs.ThreadsN', 'Lomond.Proofs.ThreadsNW', 'Lomond.Proofs.ThreadsNC']
+                     'Lomond.Proofs.ThreadsN', 'Lomond.Proofs.ThreadsNW', 'Lomond.Proofs.ThreadsNC', 'Lomond.Proofs.ThreadsPre']
 
 
 def prog(t, kinds):
@@ -110,8 +110,9 @@ def before_connect_cases(rng, tier):
     """the racing calls start BEFORE the event loop is first advanced: an application thread is somewhere inside close() / a send
     (possibly inside the write lock) while the loop thread connects, stores the socket, writes the request and reads the reply
     (loop program `cn`); then the other application thread runs.  Directed: thread 0 runs a steps, the loop connects completely,
-    thread 0 runs b more steps, thread 1 runs completely, the rest is drained - for every a, b; plus uniformly random schedules.
-    Judged by the oracle alone (the thread model starts from an established connection)."""
+    thread 0 runs b more steps, thread 1 runs completely, the rest is drained - for every a, b; plus uniformly random schedules;
+    plus the same with the request's own sendall in 1 / 3 / 4 chunks or made to fail after k chunks (TransportFail -> ConnectFail).
+    Compared with the thread model (state `initPre`, loop call `.connect`) and judged by the oracle."""
     shapes = [[['cl'], ['st0'], ['cn']], [['cl'], ['cl'], ['cn']], [['st0'], ['cl'], ['cn']], [['cl'], ['pi'], ['cn', 'rp']],
               [['cl', 'st0'], ['sb0'], ['cn', 'rp']]]
     out = []
@@ -125,6 +126,20 @@ def before_connect_cases(rng, tier):
         for _ in range(40 if tier == 'quick' else 600):
             out.append(dict(z=0, progs=c['progs'], mode='sync', family='before-connect-random',
                             schedule=[rng.randrange(len(kinds)) for _ in range(90)]))
+    # the socket of the request write: chunks, failures (key "<loop>.0" = the request)
+    for kinds in shapes[:1] + shapes[3:4]:
+        c = case(0, kinds)
+        loop = len(kinds) - 1
+        socks = [dict(n=1), dict(n=3), dict(n={'*': 2, '%d.0' % loop: 4}), dict(n=2, fail=[[loop, 0, 0]]), dict(n=2, fail=[[loop, 0, 1]]),
+                 dict(n=3, fail=[[loop, 0, 2]]), dict(n=2, fail=[[0, 0, 1]])]
+        for sk in socks:
+            for a in (range(0, 9) if tier != 'quick' else (0, 2, 3, 5, 8)):
+                for la in (2, 6, 40):
+                    out.append(dict(z=0, progs=c['progs'], mode='sync', family='before-connect-socket',
+                                    schedule=[0] * a + [loop] * la + [1] * 4 + [loop] * 40 + [0] * 10 + [1] * 30, **sk))
+            for _ in range(10 if tier == 'quick' else 150):
+                out.append(dict(z=0, progs=c['progs'], mode='sync', family='before-connect-socket-random',
+                                schedule=[rng.randrange(len(kinds)) for _ in range(90)], **sk))
     return out
 
 
@@ -186,7 +201,7 @@ def explore(res, tier, seed, model_ok=True):
                 'granularity, and the two schedules of the window after a FAILED Close write; (b) for each family - close() against send_text/send_binary/send_ping/close() on other threads and against the event loop '
                 '(echo of a server Close, completion of our own close by the server\'s Close, auto-pong, auto-ping), 2-3 threads - EVERY maximal interleaving at '
                 'sync-step granularity up to the stated preemption bound, enumerated by the model driver and executed on the real code; (c) 300 (quick) / 3000 uniformly random sync-granularity schedules that also schedule threads waiting for the lock; (d) %d sampled '
-                'line-granularity schedules; (e) calls that start BEFORE the event loop is first advanced, racing with the loop thread\'s connect / request / reply (directed and random schedules; oracle only).  Model and real code compared on the executed step log, chunks, results, flags.  Oracle: reference decoder on the '
+                'line-granularity schedules; (e) calls that start BEFORE the event loop is first advanced, racing with the loop thread\'s connect / request / reply (directed and random schedules, the request\'s own sendall in 1-4 chunks or failing; thread model started in `initPre` with loop call `.connect`; runs in which a send is attempted on the socket the loop has just shut down after a FAILED request write are judged by the oracle alone and counted).  Model and real code compared on the executed step log, chunks, results, flags.  Oracle: reference decoder on the '
                 'bytes written: <= 1 complete Close, nothing (not even a partial frame) after it, a send is on the wire iff it returned ok, losers raised a WebSocketError '
                 '(TransportFail exactly where the socket was made to fail), a close() that has returned leaves the websocket closing or closed.  '
                 'non-trivial = some thread was preempted; distinct by (programs, executed step sequence)') % (120 if quick else 1500)
